@@ -19,6 +19,8 @@ use std::path::{Path, PathBuf};
 pub const RULE: &str = "Scenario g is drawn from seed mix(VERIF_SEED, g): a logical program (instructions, labels, data, .equ/.set/.def/.undef, #define with .ifdef/.ifndef/.if/.elif/.else, macros, .device, segments, .org, messages; about a third made to fail) is split into a tree of 1-8 files, depth <= 4, cut only between balanced blocks (also inside conditional branches), and each include is given one of the documented locations: path as written (relative to cwd or absolute), directory of the including file or of an ancestor, a caller-supplied directory, an .includepath directory (absolute, or relative to the file containing the directive, which may itself have been found through a search directory; the directive sits before the include, at the top of the file or at the top of an ancestor); .exit with dead lines after it in included files and in main; one file included several times. The result of build_file(tree) is compared with build_str(paste(tree)). Then, inside the call sequence of a fault-free profile run: the file missing, vanishing between stat and open, stat/open/read failures, short reads, read caps 1/3/64, EINTR, a non-UTF-8 byte (quick: one seeded fault per scenario and pairs; thorough: additionally every call x every kind for a share of scenarios), plus re-runs with one used directory taken out of its documented place. Non-trivial: the tree has at least one include that is actually opened; distinct by (tree shape, location-kind vector, fired-rule list, program hash).";
 
 pub const ASSUMPTIONS: &[&str] = &[
+    "a reported file size that lies (fault kind size-lie: 0, 1, 7 or 1 MiB, as procfs, pipes and growing files report) is judged leniently: Err is acceptable, Ok implies the fault-free result; a busy advisory lock or any other condition the environment imposes may fail the build visibly",
+    "a search directory spelled <link>/../<dir> names what the kernel resolves it to (the link's target is left by the '..'); names holding a backslash or called '~' are ordinary names",
     "the flat side of the comparison is assembled by the same tree's build_str: C11 is a relational property, defects of the pure core cancel and are not this check's business",
     "not generated because the statement leaves them undefined: conditionals or macro definitions spanning a file boundary, a same-named directory shadowing a file, two files of the same name in different search directories, an .includepath of a child relied on by its parent after return, includes inside macro bodies",
     "when an included file is a symbolic link, 'the directory of the including file' is the directory it was found in (the link's), not the directory its bytes live in",
